@@ -7,11 +7,28 @@ import (
 	"fmt"
 	"io"
 	"io/fs"
+	osexec "os/exec"
 	"strings"
+	gosync "sync"
 	"syscall"
 
 	"go.uber.org/thriftrw/internal/zzsim/simrt"
 )
+
+// Real switches the seam to the real os/exec (stub-fidelity cross-check only):
+// the same rewritten code then starts real processes over real pipes.
+var Real bool
+
+// RealLog records what the real-mode seam saw, for the cross-check.
+var RealLog []string
+
+var realLogMu gosync.Mutex
+
+func realLog(format string, a ...interface{}) {
+	realLogMu.Lock()
+	RealLog = append(RealLog, fmt.Sprintf(format, a...))
+	realLogMu.Unlock()
+}
 
 // ErrNotFound is the error resulting if a path search failed to find an
 // executable file.
@@ -39,6 +56,9 @@ const simBin = "/sim/bin/"
 
 // LookPath searches the run's table of simulated executables.
 func LookPath(file string) (string, error) {
+	if Real {
+		return osexec.LookPath(file)
+	}
 	s := simrt.S
 	if s == nil {
 		return "", &Error{file, ErrNotFound}
@@ -76,10 +96,15 @@ type Cmd struct {
 	parentStdout *simrt.PipeReader
 	started      bool
 	waited       bool
+	real         *osexec.Cmd
 }
 
 // Command returns the Cmd struct to execute the named program.
 func Command(name string, arg ...string) *Cmd {
+	if Real {
+		rc := osexec.Command(name, arg...)
+		return &Cmd{Path: rc.Path, Args: rc.Args, Err: rc.Err, real: rc}
+	}
 	cmd := &Cmd{Path: name, Args: append([]string{name}, arg...)}
 	if !strings.Contains(name, "/") {
 		lp, err := LookPath(name)
@@ -93,6 +118,13 @@ func Command(name string, arg ...string) *Cmd {
 	return cmd
 }
 
+func baseOf(p string) string {
+	if i := strings.LastIndex(p, "/"); i >= 0 {
+		return p[i+1:]
+	}
+	return p
+}
+
 func (c *Cmd) String() string { return strings.Join(c.Args, " ") }
 
 func (c *Cmd) baseName() string { return strings.TrimPrefix(c.Path, simBin) }
@@ -100,6 +132,9 @@ func (c *Cmd) baseName() string { return strings.TrimPrefix(c.Path, simBin) }
 // StdinPipe returns a pipe that will be connected to the command's standard
 // input when the command starts.
 func (c *Cmd) StdinPipe() (io.WriteCloser, error) {
+	if c.real != nil {
+		return c.real.StdinPipe()
+	}
 	if c.Stdin != nil {
 		return nil, errors.New("exec: Stdin already set")
 	}
@@ -116,6 +151,9 @@ func (c *Cmd) StdinPipe() (io.WriteCloser, error) {
 // StdoutPipe returns a pipe that will be connected to the command's standard
 // output when the command starts.
 func (c *Cmd) StdoutPipe() (io.ReadCloser, error) {
+	if c.real != nil {
+		return c.real.StdoutPipe()
+	}
 	if c.Stdout != nil {
 		return nil, errors.New("exec: Stdout already set")
 	}
@@ -142,6 +180,14 @@ func (c *Cmd) closeAll() {
 
 // Start starts the specified command but does not wait for it to complete.
 func (c *Cmd) Start() error {
+	if c.real != nil {
+		c.real.Stderr = c.Stderr
+		c.real.Env = c.Env
+		c.real.Dir = c.Dir
+		err := c.real.Start()
+		realLog("start %s err=%v", baseOf(c.Path), err != nil)
+		return err
+	}
 	s := simrt.S
 	if s == nil {
 		return errors.New("simexec: no run in progress")
@@ -176,6 +222,11 @@ func (c *Cmd) Start() error {
 
 // Wait waits for the command to exit and releases the parent's pipe ends.
 func (c *Cmd) Wait() error {
+	if c.real != nil {
+		err := c.real.Wait()
+		realLog("reaped %s err=%v", baseOf(c.Path), err != nil)
+		return err
+	}
 	s := simrt.S
 	if c.Process == nil {
 		return errors.New("exec: not started")
